@@ -100,7 +100,7 @@ def eng_items(ri):
         elif k == "path":
             stem = bytes.fromhex(it["stem"]).decode()
             m = re.match(r"^(.*)_(\d+)\.gcno$", it["path"], re.S)
-            num = int(m.group(2)) if m and m.group(1) == stem else 0
+            num = int(m.group(2)) if m and os.path.normpath(m.group(1)) == os.path.normpath(stem) else 0   # the harness prints the path relative to tmp: "./" segments are gone
             out.append((2, num, nm, list(stem.encode()), [] if it["gcno"] is None else [it["gcno"]],
                         [] if it["gcda"] is None else [it["gcda"]], []))
         elif k == "paths":
@@ -321,6 +321,19 @@ def special_stream(pool):
         out.append(([{"kind": "dir", "name": "tree", "entries": dots}], ll, False, False, ("dots", ll)))
         out.append(([{"kind": "zip", "name": "tree.zip", "entries": dots}], ll, False, False, ("dots", ll)))
         out.append(([{"kind": "dir", "name": ".dotroot", "entries": dots, "wrap": True}], ll, False, True, ("dots", ll)))
+    # zip members with a leading "./" (zip -r . style): ordinary members; the gcno and its gcda share the "./obj/file" spelling
+    for ll in (False, True):
+        ents = [["./a.info", n["info_a"], "info"], ["./rep/one.xml", n["xml_1"], "xml"], ["./obj/file.gcno", n["llvm_gcno_file"], "gcno"], ["./obj/file.gcda", n["llvm_gcda_file"], "gcda"],
+                ["./././deep/b.info", n["info_b"], "info"], ["./gcc/o.gcno", n["gcc_gcno_orphan"], "gcno"]]
+        zb3 = L.zip_bytes([(e[0], e[1]) for e in ents], pool.blobs)
+        out.append(([{"kind": "zipraw", "name": "dotslash.zip", "blob": pool.add("zip_dotslash", zb3), "entries": ents}], ll, False, False, ("dotslash", ll)))
+        one = [["./only.info", n["info_a"], "info"]]
+        out.append(([{"kind": "zipraw", "name": "dotslash1.zip", "blob": pool.add("zip_dotslash1", L.zip_bytes([(e[0], e[1]) for e in one], pool.blobs)), "entries": one}], ll, True, True, ("dotslash1", ll)))
+    # the DTD marker in other legal spellings of the DOCTYPE (wrapped lines, single quotes, extra blanks), each alone and next to other input
+    for key in ("jacoco_wrapped", "jacoco_squote", "jacoco_spaces"):
+        for extra in ([], [["ok.info", n["info_a"], "info"]]):
+            for kind in ("dir", "zip"):
+                out.append(([{"kind": kind, "name": "c." + kind if kind == "zip" else "c", "entries": [["r.xml", n[key], "xml"]] + extra}], False, False, False, ("doctype", key, bool(extra), kind)))
     # a gcda archive alone must fail; gcno alone with --filter covered yields nothing but does not fail
     out.append(([{"kind": "zip", "name": "g.zip", "entries": [["m.gcda", n["gcc_gcda_main"], "gcda"]]}], False, False, False, ("gcda-only", 0)))
     out.append(([{"kind": "zip", "name": "g.zip", "entries": [["m.gcno", n["gcc_gcno_main"], "gcno"]]}], False, True, False, ("gcno-only-covered", 0)))
@@ -383,6 +396,7 @@ def cli_stream(chk, pool, n, dist):
     base = [("info", "a.info", names["info_a"]), ("info", "logs/b.info", names["info_b"]), ("info", "a.info", names["info_a2"]),
             ("xml", "rep/one.xml", names["xml_1"]), ("xml", "two.xml", names["xml_2"]), ("xml", "short.xml", names["short_jacoco"]),
             ("xml", "rep/straddle.xml", names["straddle_jacoco"]), ("decoy", "late.xml", names["decoy_xml_late"]),
+            ("xml", "rep/wrapped.xml", names["jacoco_wrapped"]), ("xml", "squote.xml", names["jacoco_squote"]), ("xml", "rep/spaces.xml", names["jacoco_spaces"]),
             ("info", "same/s.info", names["info_c"]), ("info", "same/s.info", names["info_c"]),
             ("info", "lib/.libs/d.info", names["info_dot"]), ("info", ".cov.info", names["info_dotfile"]),
             ("decoy", "decoy.info", names["decoy_info"]), ("decoy", "build.xml", names["decoy_xml"]), ("decoy", "notes.txt", names["txt"]),
@@ -406,12 +420,12 @@ def cli_stream(chk, pool, n, dist):
         b = {"kind": by[1], "name": "data.zip" if by[1] == "zip" else "data", "entries": [[n_, c, k] for k, n_, c in arts if k != "gcno"]}
         return a, b
 
-    def group(label, packagings, covered, first_full):
+    def group(label, packagings, filt, first_full):
         """all (packaging, --llvm on/off) runs of one artifact set: one report; then the report itself"""
         reps = []
         for args in packagings:
             for ll in ([], ["--llvm"]):
-                flags = ll + (["--filter", "covered"] if covered else [])
+                flags = ll + (["--filter", filt] if filt else [])
                 p = run(args, flags)
                 if p.returncode != 0:
                     chk.violation({"kind": "oracle", "engine": "cli", "args": args, "flags": flags, "stderr": p.stderr[-800:], "clause": "a layout with usable input must produce a report"}, tag="cli")
@@ -430,36 +444,42 @@ def cli_stream(chk, pool, n, dist):
         dist["cli_records"] = max(dist["cli_records"], sum(len(v) for v in reps[0][2].values()))
         for args, flags, r in reps:
             got = [x for x in r.get("reader.c", []) if x.startswith("DA:")]
-            want = [] if covered else exp_orphan
+            want = [] if filt == "covered" else exp_orphan
             if sorted(got) != sorted(want):
                 chk.violation({"kind": "oracle", "engine": "cli", "group": label, "args": args, "flags": flags, "reader.c": got, "expected": want,
-                               "clause": "a gcno without any gcda contributes its lines with zero counts unless only covered files were requested (--filter covered)"}, tag="cli-orphan")
+                               "clause": "a gcno without any gcda contributes its lines with zero counts unless only covered files were requested (--filter covered); "
+                                         "with --filter uncovered its all-zero record is in the report"}, tag="cli-orphan")
                 break
         r = reps[0][2]
-        if "file.c" not in r or "file_branch.c" not in r:
+        if filt == "uncovered":
+            if "file.c" in r or "file_branch.c" in r:
+                chk.violation({"kind": "oracle", "engine": "cli", "group": label, "report": sorted(r), "clause": "--filter uncovered: files with executed lines are not reported"}, tag="cli")
+        elif "file.c" not in r or "file_branch.c" not in r:
             chk.violation({"kind": "oracle", "engine": "cli", "group": label, "report": sorted(r), "clause": "gcno files with gcda are reported"}, tag="cli")
         if first_full:
             if "p/S.java" not in r or "p/T.java" not in r:
                 chk.violation({"kind": "oracle", "engine": "cli", "report": sorted(r), "clause": "the 204-byte JaCoCo report and the one with a character across byte 256 are used"}, tag="cli")
+            if "p/W.java" not in r or "p/Q.java" not in r or "p/Sp.java" not in r:
+                chk.violation({"kind": "oracle", "engine": "cli", "report": sorted(r), "clause": "JaCoCo reports whose DOCTYPE is wrapped over lines, single-quoted or spaced out carry the same DTD marker and are used"}, tag="cli")
             if "DA:1,3" not in r.get("src/a.c", []):
                 chk.violation({"kind": "oracle", "engine": "cli", "report": r, "clause": "both a.info files are used exactly once (line 1 of src/a.c: 1+2)"}, tag="cli")
             if "DA:1,10" not in r.get("src/c.c", []):
                 chk.violation({"kind": "oracle", "engine": "cli", "args": reps[0][0], "report": r, "clause": "same/s.info is given in two archives (same name, same bytes): both occurrences are used (line 1 of src/c.c: 5+5)"}, tag="cli")
             if "src/dot.c" not in r or "src/dotfile.c" not in r:
                 chk.violation({"kind": "oracle", "engine": "cli", "args": reps[0][0], "report": sorted(r), "clause": "lib/.libs/d.info and .cov.info are used however they are packaged"}, tag="cli")
-        chk.nontrivial(["cli", label, covered, sorted(r)])
+        chk.nontrivial(["cli", label, filt, sorted(r)])
 
-    for covered in (False, True):
+    for filt in (None, "covered", "uncovered"):
         # the LLVM fixtures alone: one directory, notes and data directories in both orders, one zip, notes zip + data zip, zip + dir,
         # and one directory with the dotted stems renamed
         one = lambda kind, arts: [{"kind": kind, "name": "all.zip" if kind == "zip" else "all", "entries": [[n_, c, k] for k, n_, c in arts]}]
         nd = split(fixtures, ("dir", "dir"))
         nz = split(fixtures, ("zip", "zip"))
         mz = split(fixtures, ("zip", "dir"))
-        group("fixtures", [one("dir", fixtures), [nd[0], nd[1]], [nd[1], nd[0]], one("zip", fixtures), [nz[1], nz[0]], [mz[0], mz[1]], one("dir", undot(fixtures))], covered, False)
+        group("fixtures", [one("dir", fixtures), [nd[0], nd[1]], [nd[1], nd[0]], one("zip", fixtures), [nz[1], nz[0]], [mz[0], mz[1]], one("dir", undot(fixtures))], filt, False)
         # everything, random packagings (one of them with the dotted stems renamed)
         for i in range(n):
-            group("full%d" % i, [L.gen_layout(rng, base), L.gen_layout(rng, base), L.gen_layout(rng, undot(base))], covered, i == 0 and not covered)
+            group("full%d" % i, [L.gen_layout(rng, base), L.gen_layout(rng, base), L.gen_layout(rng, undot(base))], filt, i == 0 and not filt)
     # no usable input => non-zero exit, whatever the packaging and the flags
     nothing = [a for a in base if a[0] in ("decoy", "gcda")]
     for j in range(4):
@@ -491,7 +511,7 @@ def run(chk):
                        "each packaging in two argument orders, --llvm on/off x --filter covered on/off; grcov::producer (unbounded channel, items and extracted files read back) "
                        "vs Gallina work_items (item for item, incl. archive names, link numbers and temp-file names) vs the driver's reading of the property; all packagings of "
                        "one artifact set must give one multiset of item contents; hand-made stream (symlinks, duplicate zip names, the 256-byte signature window incl. invalid UTF-8 around the marker, zip members with absolute / '..' names); CLI stream (real binary, so main.rs's option plumbing is covered): LLVM fixtures incl. an orphan gcno, dotted stems (file.c.gcno) next to a decoy file.gcda, "
-                       "as one dir / notes+data dirs in both orders / zips / renamed stems, and the full pool in random packagings, each with and without --llvm x --filter covered: one report per artifact set, "
+                       "as one dir / notes+data dirs in both orders / zips / renamed stems, and the full pool in random packagings, each with and without --llvm x --filter {none, covered, uncovered}: one report per artifact set, "
                        "orphan lines = llvm-cov's own listing (reader.c.0.gcov) with zero counts unless covered only; no usable input exits non-zero; non-trivial = distinct layout producing items")
     chk.cov["trusted_base"] = ["Coq kernel; vm_compute for the correspondence",
                                "walkdir and the zip crate: the list of (relative name, content) of each archive is computed by the driver from its own layout description "
